@@ -2001,6 +2001,8 @@ impl WriteTransaction {
             .transaction_tracker
             .oldest_live_read_transaction()
             .map_or(self.transaction_id, |x| x.next());
+        #[cfg(redb_verif)]
+        crate::verif::pause("X.durable_commit.horizon");
         self.process_freed_pages(free_until_transaction)?;
         // Flush allocated pages (including previously unpersisted allocations that are now
         // becoming durable) AFTER process_freed_pages, so that any pages reclaimed here have
@@ -2199,6 +2201,8 @@ impl WriteTransaction {
             .transaction_tracker
             .oldest_live_read_nondurable_transaction()
             .map_or(self.transaction_id, |x| x.next());
+        #[cfg(redb_verif)]
+        crate::verif::pause("X.nd_commit.free");
         self.process_freed_pages_nondurable(free_until_transaction)?;
 
         #[cfg(redb_verif)]
